@@ -237,7 +237,7 @@ class Universe:
             raw = bytes.fromhex(raw)
         return {"key": self.key_id(e["key"]),
                 "sri": self.sri_abs(integ) if integ is not None else [],
-                "time": str(e["time"]), "size": int(e["size"]),
+                "time": str(e["time"]), "size": str(int(e["size"])),
                 "meta": self.meta_id(e["metadata"]), "raw": self.raw_id(raw)}
 
 
@@ -246,7 +246,8 @@ def _entry_sort_key(e):
 
 
 class Session:
-    def __init__(self, workdir, universe=None, reflink=False, exact=False, total=False, layout=False):
+    def __init__(self, workdir, universe=None, reflink=False, exact=False, total=False, layout=False,
+                 relcache=False):
         self.dir = workdir
         os.makedirs(workdir, exist_ok=True)
         self.u = universe or Universe()
@@ -268,6 +269,7 @@ class Session:
         self.layout = [] if layout else None   # byte-level layout events (TraceLayout.tla)
         self.prev_inv = None
         self.layout_quiet = False
+        self.relcache = relcache   # the cache directory is passed as a RELATIVE path
         self.new_cache()
 
     # ------------------------------------------------------------ lifecycle
@@ -471,6 +473,16 @@ class Session:
     def raw_call(self, lane, req):
         fl, _ = LANES[lane]
         req = dict(req)
+        if self.relcache and "cache" not in req and req.get("op") != "chdir":
+            # configuration: the caller names the cache by a relative path (with a redundant
+            # component) from a working directory next to it
+            base = os.path.dirname(self.root)
+            if self.cwd.get(fl) != base:
+                r = self.driver(fl).call({"op": "chdir", "dir": base})
+                if not r.get("ok"):
+                    raise ToolError("chdir failed: %r" % r)
+                self.cwd[fl] = base
+            req["cache"] = "./cache/../cache"
         req.setdefault("cache", self.root)
         self.ncalls += 1
         try:
@@ -503,7 +515,9 @@ class Session:
         return c
 
     def _opts_abs(self, o):
-        return {"size": [o["size"]] if o.get("size") is not None else [],
+        big = o.get("size") is not None and o["size"] >= 2 ** 31
+        return {"size": [o["size"]] if (o.get("size") is not None and not big) else [],
+                "sizes": str(o["size"]) if o.get("size") is not None else "DEFAULT",
                 "sri": self.u.sri_sorted(o["sri"]) if o.get("sri") else [],
                 "time": str(o["time"]) if o.get("time") is not None else "DEFAULT",
                 "meta": self.u.meta_id(o["meta"]) if "meta" in o else "DEFAULT",
@@ -716,13 +730,27 @@ class Session:
     def _do_w_write(self, st, lane):
         h = st["h"]
         data, spec = self._chunk_bytes(st)
-        resp = self._hcall(h, {"op": "w_write", "data": spec, "all": st.get("all", True)})
+        if st.get("copy_step"):
+            # the chunk arrives through io::copy from a reader that delivers copy_step bytes per read
+            resp = self._hcall(h, {"op": "w_copy_from", "data": spec, "step": st["copy_step"]})
+            whole = False
+        elif st.get("vectored"):
+            # one write_vectored call with the chunk split into several buffers (some empty)
+            k = st["vectored"]
+            cuts = sorted({0, len(data)} | {(len(data) * i) // k for i in range(1, k)})
+            parts = [data[cuts[i]:cuts[i + 1]] for i in range(len(cuts) - 1)] or [b""]
+            parts.insert(min(1, len(parts)), b"")
+            resp = self._hcall(h, {"op": "w_write_vectored", "datas": [{"hex": p.hex()} for p in parts]})
+            whole = False
+        else:
+            whole = st.get("all", True)
+            resp = self._hcall(h, {"op": "w_write", "data": spec, "all": whole})
         info = self.handles[h][2]
         sop = {"op": "w_write", "h": h, "len": len(data)}
         if resp.get("ok"):
             n = int(resp["val"])
             info["fed"] += data[:n]
-            sop["len"] = n if not st.get("all", True) else len(data)
+            sop["len"] = n if not whole else len(data)
             return sop, resp, {"ok": True, "v": n}
         return sop, resp, None
 
@@ -833,6 +861,9 @@ class Session:
             elif pf:
                 req["prefill"] = {"hex": pf}
             resp = self._hcall(h, req)
+            n_spec = 1 << 30
+        elif st.get("copy"):
+            resp = self._hcall(h, {"op": "r_copy"})
             n_spec = 1 << 30
         elif st.get("all"):
             resp = self._hcall(h, {"op": "r_read_all", "n": st["n"]})
